@@ -123,7 +123,11 @@ func (h *Hub) ServeHTTP(w http.ResponseWriter, r *http.Request) {
 	remoteService = service
 
 	// don't allow a second connection
+	// the check and the registration have to be one step: with an incoming and an outgoing connection being set up
+	// at the same time both could pass the check and one of them would stay alive without being registered
+	h.muxConReg.Lock()
 	if !h.keepThisConnection(conn, true, remoteService) {
+		h.muxConReg.Unlock()
 		_ = conn.Close()
 		return
 	}
@@ -131,9 +135,13 @@ func (h *Hub) ServeHTTP(w http.ResponseWriter, r *http.Request) {
 	dataHandler := ws.NewWebsocketConnection(conn, remoteService.SKI())
 	shipConnection := ship.NewConnectionHandler(h, dataHandler, ship.ShipRoleServer,
 		h.localService.ShipID(), remoteService.SKI(), remoteService.ShipID())
-	shipConnection.Run()
 
+	// register before running the handshake: if it fails right away the closed connection is removed again,
+	// instead of a dead connection being registered afterwards and blocking all further connection attempts
 	h.registerConnection(shipConnection)
+	h.muxConReg.Unlock()
+
+	shipConnection.Run()
 }
 
 // return if there is a connection for a SKI
@@ -207,7 +215,10 @@ func (h *Hub) connectFoundService(remoteService *api.ServiceDetails, host, port,
 		return errors.New(errorString)
 	}
 
+	// the check and the registration have to be one step, see ServeHTTP
+	h.muxConReg.Lock()
 	if !h.keepThisConnection(conn, false, remoteService) {
+		h.muxConReg.Unlock()
 		errorString := fmt.Sprintf("closing connection to %s: ignoring this connection", remoteService.SKI())
 		return errors.New(errorString)
 	}
@@ -215,9 +226,12 @@ func (h *Hub) connectFoundService(remoteService *api.ServiceDetails, host, port,
 	dataHandler := ws.NewWebsocketConnection(conn, remoteService.SKI())
 	shipConnection := ship.NewConnectionHandler(h, dataHandler, ship.ShipRoleClient,
 		h.localService.ShipID(), remoteService.SKI(), remoteService.ShipID())
-	shipConnection.Run()
 
+	// register before running the handshake, see ServeHTTP
 	h.registerConnection(shipConnection)
+	h.muxConReg.Unlock()
+
+	shipConnection.Run()
 
 	return nil
 }
